@@ -313,8 +313,15 @@ for cell in cells:
     d, c = cell["d"], cell["c"]
     try:
         if d == "invariant":
-            class K:
-                def m(self): return 1
+            if c == "subclass":
+                @icontract.invariant(lambda self: True, enabled=True)
+                class Base:
+                    def b(self): return 1
+                class K(Base):
+                    def m(self): return 1
+            else:
+                class K:
+                    def m(self): return 1
             before = dict(vars(K))
             deco = icontract.invariant(cond_self, **kw)
             K2 = deco(K)
@@ -331,6 +338,15 @@ for cell in cells:
             elif c == "async_function":
                 async def t(x=1): return 1
                 call = lambda f: run(f())
+            elif c == "callable_object":
+                class _Callable:
+                    def __call__(self, x=1): return 1
+                t = _Callable()
+                call = lambda f: f()
+            elif c == "partial":
+                import functools
+                t = functools.partial(lambda x=1: 1)
+                call = lambda f: f()
             else:
                 def t(self, x=1): return 1
                 call = lambda f: f(object())
